@@ -49,6 +49,7 @@ type tlcStats struct {
 	mu                  sync.Mutex
 	distinct, generated int64
 	runs                int
+	distinctTraces      int
 }
 
 // accepted runs StreamTrace over all given streams (in parallel chunks, each
@@ -59,31 +60,46 @@ func accepted(scs []*Scenario, lock, stop bool, tag string, st *tlcStats) map[*S
 	if len(scs) == 0 {
 		return out
 	}
-	const chunk = 400
-	nchunks := (len(scs) + chunk - 1) / chunk
+	// identical traces (same scenario line, tokens and end line) are decided once
+	type group struct {
+		lines   []map[string]any
+		members []*Scenario
+	}
+	var groups []*group
+	index := map[string]*group{}
+	for _, s := range scs {
+		ls := traceLines(s)
+		b, _ := json.Marshal(ls)
+		g := index[string(b)]
+		if g == nil {
+			g = &group{lines: ls}
+			index[string(b)] = g
+			groups = append(groups, g)
+		}
+		g.members = append(g.members, s)
+	}
+	st.mu.Lock()
+	st.distinctTraces += len(groups)
+	st.mu.Unlock()
+	const chunk = 250
+	nchunks := (len(groups) + chunk - 1) / chunk
 	var wg sync.WaitGroup
 	var mu sync.Mutex
 	sem := make(chan struct{}, 4)
 	for ci := 0; ci < nchunks; ci++ {
 		lo, hi := ci*chunk, (ci+1)*chunk
-		if hi > len(scs) {
-			hi = len(scs)
+		if hi > len(groups) {
+			hi = len(groups)
 		}
 		wg.Add(1)
-		go func(ci int, part []*Scenario) {
+		go func(ci int, part []*group) {
 			defer wg.Done()
 			sem <- struct{}{}
 			defer func() { <-sem }()
-			var all [][]map[string]any
-			total := 0
-			for _, s := range part {
-				ls := traceLines(s)
-				all = append(all, ls)
-				total += len(ls)
-			}
 			var buf bytes.Buffer
 			line := 1
-			for i, ls := range all {
+			for i, g := range part {
+				ls := g.lines
 				ls[0]["ix"] = i + 1
 				ls[0]["nx"] = line + len(ls)
 				line += len(ls)
@@ -114,11 +130,13 @@ func accepted(scs []*Scenario, lock, stop bool, tag string, st *tlcStats) map[*S
 			mu.Lock()
 			for _, ix := range ids {
 				if ix >= 1 && ix <= len(part) {
-					out[part[ix-1]] = true
+					for _, s := range part[ix-1].members {
+						out[s] = true
+					}
 				}
 			}
 			mu.Unlock()
-		}(ci, scs[lo:hi])
+		}(ci, groups[lo:hi])
 	}
 	wg.Wait()
 	return out
